@@ -113,13 +113,47 @@ def model_check(prop, tier, seed, verdict, cov):
             verdict.violation(f"design check {cfgfile}: {res['violation']}", dict(kind="tlc-mc", config=cfgfile, module=module, output_tail=tail))
 
 
+def client_versions(prop, tier, seed, verdict, cov):
+    """C12 at client level: real clients negotiated to 1.14 .. 1.20 (handshake-rewriting transport)
+    exchange calls, replies, events and items; payload epochs and values are judged by Obs_Client,
+    the broker side of the same runs by Obs."""
+    runs = 60 if tier == "quick" else 800
+    wd = vlib.workdir(f"{prop}-{tier}")
+    cpath = os.path.join(wd, "versions-client.ndjson")
+    bpath = os.path.join(wd, "versions-broker.ndjson")
+    args = ["--seed", seed * 1000 + 77, "--runs", runs, "--mix", "versions", "--out-client", cpath, "--out-broker", bpath]
+    vlib.run_driver("bus-programs", args, timeout=3000)
+    res = vlib.tlc_trace("Trace_Client.tla", "Trace_Client.cfg", cpath)
+    recs = vlib.read_ndjson(cpath)
+    cov["client_version_runs"] = runs
+    cov["client_version_payloads"] = sum(1 for r in recs if r.get("t") == "tap" and r.get("dir") == "rx" and r["m"].get("val", 0) != 0 and r.get("ver", 20) < 20)
+    for (idx, p, why) in res["violations"]:
+        a, b = vlib.run_of_record(recs, idx)
+        if p == prop:
+            verdict.violation(why, dict(kind="bus-programs", driver_args=[str(x) for x in args], record_index=idx,
+                                        trace=[r for r in recs[a:b] if r.get("t") != "tap"][:300], violated_at=recs[idx - 1]))
+        else:
+            verdict.note(f"violation of {p} observed while checking {prop} (client versions): {why} (record {idx})")
+    bres = vlib.tlc_trace("Trace_Obs.tla", "Trace_Obs.cfg", bpath)
+    brecs = None
+    for (idx, p, why) in bres["violations"]:
+        if p == prop:
+            brecs = brecs or vlib.read_ndjson(bpath)
+            a, b = vlib.run_of_record(brecs, idx)
+            verdict.violation(why, dict(kind="bus-programs-broker", driver_args=[str(x) for x in args], record_index=idx, trace=brecs[a:b]))
+        else:
+            verdict.note(f"broker-side violation of {p} observed while checking {prop} (client versions): {why} (record {idx})")
+
+
 def run(prop, tier, seed):
     t0 = time.time()
     verdict = vlib.Verdict(prop)
     cov = dict(records=0, runs=0, traces=0, messages_sent=0, states=0, transitions=0, drift=0)
-    vlib.build_harness()
+    vlib.build_harness(["broker-drivers", "bus-driver"] if prop == "C12" else ["broker-drivers"])
     model_check(prop, tier, seed, verdict, cov)
     fuzz_and_validate(prop, tier, seed, verdict, cov)
+    if prop == "C12":
+        client_versions(prop, tier, seed, verdict, cov)
     have_mc = cov["states"] > 0
     coverage = dict(
         evaluations=cov["runs"],
@@ -132,6 +166,8 @@ def run(prop, tier, seed):
         records_validated=cov["records"],
         messages_sent=cov["messages_sent"],
         conformance_drifts=cov["drift"],
+        client_version_runs=cov.get("client_version_runs", 0),
+        client_version_payloads_to_old_clients=cov.get("client_version_payloads", 0),
         known_findings_reobserved=verdict.known,
         other_property_notes=verdict.notes[:10],
     )
